@@ -32,6 +32,10 @@ def ReachTraced (h : Heap) (i : Nat) : Prop := CallReach h .blacken i
 def Covered (h : Heap) : Prop :=
   ∀ (i : Nat) (o : Obj) (e : Edge), h[i]? = some o → e ∈ o.edges → e.inBlacken.isSome ∨ Rooted h e.target
 
+/-- every pointer is traced by the owner's `mark()` with op `mark`, or points at a rooted box -/
+def MarkCovered (h : Heap) : Prop :=
+  ∀ (i : Nat) (o : Obj) (e : Edge), h[i]? = some o → e ∈ o.edges → e.inMark = some .mark ∨ Rooted h e.target
+
 /-- every pointer points into the heap -/
 def Closed (h : Heap) : Prop := ∀ (i : Nat) (o : Obj) (e : Edge), h[i]? = some o → e ∈ o.edges → e.target < h.size
 
